@@ -218,6 +218,69 @@ def probeNames : List String :=
   ["none", "owner", "admin", "member", "outcast", "moderator", "participant", "visitor",
    "", "None", "OUTCAST", "outcast ", " none", "outcas", "outcasts", "0", "4", "bogus"]
 
+/-! ### The room's error reply (`stanza.UnmarshalError`, reached from `JoinPresence` / `LeavePresence`)
+
+`Join` returns "the room's stanza error" and `Leave` treats a reply as a refusal only if
+`stanza.UnmarshalError` *finds* the error element among the children of the `type='error'`
+presence; if it does not, the call returns a plain error (`errors.As` fails: a refused `Leave`
+keeps the registration and the flag).  The reply is read on the session's stream, so its children
+carry whatever the stanza namespace of that stream is (`jabber:client`, `jabber:server`,
+`jabber:component:accept` on a component connection, empty for tokens that do not come from a
+stream), and the sender may echo the children of the request in front of the error.  The scan is
+by local name only: the first child element called `error`.  The actions `joinError` /
+`leaveError` of the LTS stand for replies in which the scan finds the error; `findError` says
+which those are, and the theorems of `Props/C18.lean` show that every reply carrying an error
+element — in any namespace, behind any echoed children — is among them (tied by a probe fact). -/
+
+/-- a child of the reply as the scan sees it: character data, or an element with its name -/
+inductive RChild
+  | text
+  | elem (space «local» : String)
+  deriving DecidableEq, Repr, Inhabited
+
+def RChild.isError : RChild → Bool
+  | .text => false
+  | .elem _ l => l == "error"
+
+/-- index of the child that `UnmarshalError` decodes: the first element whose local name is `error` -/
+def findError : List RChild → Option Nat
+  | [] => none
+  | c :: cs => if c.isError then some 0 else (findError cs).map (· + 1)
+
+def nsClient := "jabber:client"
+def nsServer := "jabber:server"
+def nsAccept := "jabber:component:accept"
+def nsConnect := "jabber:component:connect"
+def nsMuc := "http://jabber.org/protocol/muc"
+
+/-- the children the probe fact builds replies from: four that are not an error (white space, the
+echoed `<x xmlns='…/muc'/>` of a join, an echoed `<status/>`, a near miss of the name) and the error
+element in every stanza namespace a stream can have (and without one) -/
+def replyUniverse : List RChild :=
+  [.text, .elem nsMuc "x", .elem nsClient "status", .elem "urn:verif" "errors",
+   .elem "" "error", .elem nsClient "error", .elem nsServer "error", .elem nsAccept "error", .elem nsConnect "error"]
+
+def errorCount (cs : List Nat) : Nat := (cs.filter (· ≥ 4)).length
+
+/-- all sequences over `0 … k-1` of exactly length `n`, first position most significant -/
+def seqs (k : Nat) : Nat → List (List Nat)
+  | 0 => [[]]
+  | n + 1 => (List.range k).flatMap fun i => (seqs k n).map (i :: ·)
+
+/-- the probe domain: every sequence of at most three children of the universe with at most one
+error element (which of two error elements a reply with two would mean is not the property's
+business: the implementation is free there) -/
+def replyDomain : List (List Nat) :=
+  ((seqs 9 0) ++ (seqs 9 1) ++ (seqs 9 2) ++ (seqs 9 3)).filter fun cs => errorCount cs ≤ 1
+
+def replyChildren (cs : List Nat) : List RChild := cs.filterMap fun i => replyUniverse[i]?
+
+/-- what the call of channel `c` that waits for it makes of a `type='error'` reply with the children
+`cs`: the room's refusal (`joinError` / `leaveError`) iff the scan finds the error element; otherwise
+it is not a refusal (the call ends with a plain error and — for `Leave` — nothing is cleaned up) -/
+def replyAct (leave : Bool) (c : Nat) (cs : List RChild) : Option Act :=
+  if (findError cs).isSome then some (if leave then .leaveError c else .joinError c) else none
+
 inductive Reach (addr0 : Nat → Nat) : St → Prop
   | init : Reach addr0 (init addr0)
   | step {s s' a} : Reach addr0 s → step s a = some s' → Reach addr0 s'
